@@ -10,11 +10,29 @@ use serde_json::{json, Value};
 
 pub const LENGTHS: &[usize] = &[0, 1, 2, 3, 5, 10, 8191, 8192, 8193, 10000, 65537];
 
+/// file lengths that also exist with CRLF-dense text content ("ab\r\n" repeated), so that
+/// requested ranges begin and end on line breaks
+pub const CRLF_LENGTHS: &[usize] = &[4, 10, 8192];
+pub const CRLF_FLAG: usize = 1 << 40;
+
 pub fn file_name(l: usize) -> String {
-    format!("r{}.bin", l)
+    if l & CRLF_FLAG != 0 {
+        format!("c{}.txt", l & !CRLF_FLAG)
+    } else {
+        format!("r{}.bin", l)
+    }
 }
 pub fn content(l: usize) -> Vec<u8> {
-    crate::tree::coded(l, l as u32 + 1)
+    if l & CRLF_FLAG != 0 {
+        b"ab\r\n".iter().cycle().take(l & !CRLF_FLAG).cloned().collect()
+    } else {
+        crate::tree::coded(l, l as u32 + 1)
+    }
+}
+pub fn all_files() -> Vec<usize> {
+    let mut v: Vec<usize> = LENGTHS.to_vec();
+    v.extend(CRLF_LENGTHS.iter().map(|l| l | CRLF_FLAG));
+    v
 }
 
 fn offsets(l: usize) -> Vec<String> {
@@ -67,10 +85,10 @@ pub struct Case {
 }
 impl Case {
     pub fn to_json(&self) -> Value {
-        json!({"entry": self.entry.name(), "file_length": self.l, "range": self.value})
+        json!({"entry": self.entry.name(), "file_length": self.l & !CRLF_FLAG, "crlf_text": self.l & CRLF_FLAG != 0, "range": self.value})
     }
     pub fn from_json(v: &Value) -> Case {
-        Case { entry: Entry::from_name(v["entry"].as_str().unwrap_or("")), l: v["file_length"].as_u64().unwrap_or(0) as usize, value: v["range"].as_str().unwrap_or("").to_string() }
+        Case { entry: Entry::from_name(v["entry"].as_str().unwrap_or("")), l: v["file_length"].as_u64().unwrap_or(0) as usize | if v["crlf_text"].as_bool().unwrap_or(false) { CRLF_FLAG } else { 0 }, value: v["range"].as_str().unwrap_or("").to_string() }
     }
 }
 
@@ -143,8 +161,8 @@ pub fn check(case: &Case) -> (String, bool, Vec<(String, String)>) {
     };
     // what the client actually sent as header value: the parser strips CR/LF only; leading
     // and trailing spaces of the value are part of it
-    let exp = rangemodel::expect(&case.value, case.l as u128);
-    let l128 = case.l as u128;
+    let exp = rangemodel::expect(&case.value, file.len() as u128);
+    let l128 = file.len() as u128;
     // collect the parts of the answer
     let mut parts: Vec<Got> = Vec::new();
     let mut structure_err: Option<String> = None;
@@ -178,7 +196,7 @@ pub fn check(case: &Case) -> (String, bool, Vec<(String, String)>) {
         Expect::Inside(want) => {
             class = format!("inside:{}:{}", want.len().min(3), resp.code);
             if resp.code != 206 {
-                fails.push((format!("{}:status-not-206-for-satisfiable-ranges:{}", pre, resp.code), format!("status {} for {:?} on a {}-byte file", resp.code, case.value, case.l)));
+                fails.push((format!("{}:status-not-206-for-satisfiable-ranges:{}", pre, resp.code), format!("status {} for {:?} on a {}-byte file", resp.code, case.value, file.len())));
             } else if let Some(e) = structure_err {
                 fails.push((format!("{}:multipart-structure", pre), e));
             } else if parts.len() != want.len() {
@@ -288,8 +306,8 @@ pub fn for_each_value(l: usize, thorough: bool, f: &mut dyn FnMut(String)) {
 
 fn build_tree() -> std::path::PathBuf {
     let root = crate::tree::scratch_root("c03");
-    for l in LENGTHS {
-        std::fs::write(root.join(file_name(*l)), content(*l)).unwrap();
+    for l in all_files() {
+        std::fs::write(root.join(file_name(l)), content(l)).unwrap();
     }
     root
 }
@@ -300,17 +318,18 @@ pub fn run(ctx: &mut Ctx) {
     std::env::set_current_dir(&root).unwrap();
     let thorough = ctx.tier.thorough();
     ctx.bound("file_lengths", json!(LENGTHS));
+    ctx.bound("crlf_text_file_lengths", json!(CRLF_LENGTHS));
     ctx.bound("offsets", json!("{0,1,2,L-2,L-1,L,L+1,2^63,u64::MAX,u64::MAX+1,'', 'a','-1',' 1 ','+1','01'}"));
     ctx.bound("units", json!(UNITS));
     ctx.bound("multi_range", json!(format!("every sequence of 2..{} specs from a 12-element alphabet x separators {:?}", if thorough { 4 } else { 3 }, SEPARATORS)));
     for entry in [Entry::Process, Entry::Legacy] {
-        for l in LENGTHS {
-            for_each_value(*l, thorough, &mut |value| {
+        for l in all_files() {
+            for_each_value(l & !CRLF_FLAG, thorough, &mut |value| {
                 let key = format!("{}\0{}\0{}", entry.name(), l, value);
                 if !ctx.begin(key.as_bytes()) {
                     return;
                 }
-                let case = Case { entry, l: *l, value };
+                let case = Case { entry, l, value };
                 let (class, nontrivial, fails) = check(&case);
                 if nontrivial {
                     ctx.nontrivial();
